@@ -3,7 +3,8 @@
 Monitor shape: the real `Doist.do()` loop runs on a scripted fake clock
 (vf.mon.fakeclock) that replaces the module-global `time` of hio.help.timing and
 hio.base.doing.  The clock keeps TRUE elapsed time (advanced only by sleep(d) +
-scripted overshoot and by scripted per-cycle work) apart from the WALL reading
+scripted overshoot - or minus a scripted undershoot: a sleep cut short / returning
+early, after which more waiting must follow - and by scripted per-cycle work) apart from the WALL reading
 returned by time(), which the script steps backwards or stalls.  A class-level
 wrapper on `Doist.recur` marks the begin and end of every cycle in the clock's
 log; nothing else is instrumented.  The log is judged after the run:
@@ -52,11 +53,11 @@ LEVEL = "exploration"
 TECHNIQUE = ("trace oracle over a scripted fake clock: real Doist.do() paced by a clock whose true elapsed time and wall "
              "reading are separate; cycle starts (Doist.recur wrapper) judged exactly in a dyadic time domain")
 RULE = ("a case = (tock at construction, optional tock assigned afterwards, idle time / backward wall step before do(), "
-        "per-cycle work times, per-sleep overshoots, backward wall steps during given sleeps / at given clock reads / "
+        "per-cycle work times, per-sleep overshoots and undershoots (sleep returns early, down to no time at all), backward wall steps during given sleeps / at given clock reads / "
         "between given cycles, stalls of the reading over given sleeps, end by limit or by the doer finishing, one or two "
         "runs of the same Doist).  Enumerated: every single-event script (one event of each kind at every position, every "
         "size class) for 4 tocks x 6 cycles, and on a 2**-16 s grid the work of one cycle ending r before its deadline for "
-        "r from 15 us to a few ms at every position; random beyond, by family (steady, overshoot, longwork, stall, backstep-sleep, "
+        "r from 15 us to a few ms at every position; random beyond, by family (steady, overshoot, undershoot, longwork, stall, backstep-sleep, "
         "backstep-between, backstep-read, predo, retock, rerun, mix, fine = 2**-16 s grid) with 5-60 cycles.  Non-trivial = at least 3 cycle "
         "starts judged, at least one of them waited for, and at least one perturbation present; distinct = by family, tock, "
         "the set of perturbation kinds and the per-cycle waited/late pattern.")
@@ -80,8 +81,9 @@ TIMEOUT_S = {"quick": 240, "thorough": 1800}
 BUDGET_S = {"quick": 30, "thorough": 400}
 REQUIRE = {"early_checks": 5000, "lossless_checks": 2000, "retrograde_reads_seen": 200, "stalled_sleeps": 100,
            "cycles_late_no_wait": 200, "overshot_sleeps": 500, "runs_with_tock_reassigned": 20,
-           "runs_with_backstep_before_run": 20, "submillisecond_waits": 300, "submillisecond_wait_sizes": 8}
-EXHAUSTIVE = {"quick": "all single-event scripts: tock in {1,4,16,33}/64 x 6 cycles x event kind in {overshoot, work, "
+           "runs_with_backstep_before_run": 20, "submillisecond_waits": 300, "submillisecond_wait_sizes": 8,
+           "undershot_sleeps": 500, "sleeps_that_took_no_time": 50, "cycles_waited_through_a_short_sleep": 300}
+EXHAUSTIVE = {"quick": "all single-event scripts: tock in {1,4,16,33}/64 x 6 cycles x event kind in {overshoot, undershoot (x1, x2, with work), work, "
                        "sleep-step, read-step, between-step, stall, pre-run step, tock reassigned} x every position x 5 sizes; fine grid "
                        "(2**-16 s): work of one cycle ending r before its deadline, r in 10 sizes from 15 us to 4.6 ms, every "
                        "position, 3 tocks",
@@ -89,7 +91,7 @@ EXHAUSTIVE = {"quick": "all single-event scripts: tock in {1,4,16,33}/64 x 6 cyc
 
 U = 64.0                    # case values are integers in units of 1/64 s
 HOUR = 64 * 3600
-FAMILIES = ["steady", "overshoot", "longwork", "stall", "backstep_sleep", "backstep_between", "backstep_read",
+FAMILIES = ["steady", "overshoot", "undershoot", "longwork", "stall", "backstep_sleep", "backstep_between", "backstep_read",
             "predo", "retock", "rerun", "mix", "fine"]
 
 
@@ -98,7 +100,7 @@ FAMILIES = ["steady", "overshoot", "longwork", "stall", "backstep_sleep", "backs
 # --------------------------------------------------------------------------
 def blank(fam, q, n, unit=64):
     return {"fam": fam, "unit": unit, "tock0": q, "retock": None, "idle": 0, "prestep": 0, "enter_work": 0, "n": n,
-            "work": [0] * n, "overs": [], "sleep_steps": {}, "read_steps": {}, "cycle_steps": {}, "stalls": {},
+            "work": [0] * n, "overs": [], "unders": {}, "sleep_steps": {}, "read_steps": {}, "cycle_steps": {}, "stalls": {},
             "use_limit": False, "runs": 1, "between_idle": 0, "between_step": 0, "ndoers": 1}
 
 
@@ -118,6 +120,10 @@ def single_event_cases(tier):
                 c = blank("enum-sleep-step", q, n); c["sleep_steps"] = {str(pos): s}; yield c
                 c = blank("enum-between-step", q, n); c["cycle_steps"] = {str(pos): s}; yield c
                 c = blank("enum-stall", q, n); c["stalls"] = {str(pos): 1 + (s % 3)}; yield c
+            for s in (1, max(1, q // 2), q - 1 or 1, q, 5 * q):      # sleep returns early by s (>= q: no time passed at all)
+                c = blank("enum-undershoot", q, n); c["unders"] = {str(pos): s}; yield c
+                c = blank("enum-undershoot-twice", q, n); c["unders"] = {str(pos): s, str(pos + 1): s}; yield c
+                c = blank("enum-undershoot-work", q, n); c["unders"] = {str(pos): s}; c["work"] = [max(1, q // 4)] * n; yield c
             for rpos in (3 * pos, 3 * pos + 1, 3 * pos + 2):
                 for s in sizes(q):
                     c = blank("enum-read-step", q, n); c["read_steps"] = {str(rpos): s}; yield c
@@ -151,6 +157,7 @@ def fine_enum_cases(tier):
             c = blank("enum-fine-work-overrun", q, n, FINE); c["work"][1] = 2 * q - r; yield c
             c = blank("enum-fine-overshoot", q, n, FINE); c["overs"] = [0, r, 0, r]; c["work"][3] = q - r; yield c
             c = blank("enum-fine-sleep-step", q, n, FINE); c["sleep_steps"] = {"1": r}; c["work"][3] = q - r; yield c
+            c = blank("enum-fine-undershoot", q, n, FINE); c["unders"] = {"1": r, "4": r}; yield c
 
 
 def fine_rand_case(rng, tier):
@@ -166,6 +173,8 @@ def fine_rand_case(rng, tier):
                  for _ in range(n)]
     if rng.random() < 0.5:
         c["overs"] = [rng.choice([0, 0, small(), q - 1]) for _ in range(3 * n)]
+    if rng.random() < 0.4:
+        c["unders"] = {str(i): rng.choice([small(), small(), q]) for i in rng.sample(range(2 * n), 3)}
     if rng.random() < 0.4:
         c["sleep_steps"] = {str(i): small() for i in rng.sample(range(2 * n), 3)}
     if rng.random() < 0.3:
@@ -198,7 +207,7 @@ def rand_case(rng, fam, tier):
     def some(limit, lo=1, hi=4):
         return rng.sample(range(limit), min(limit, rng.randint(lo, hi)))
 
-    feats = {fam} if fam != "mix" else {f for f in FAMILIES[1:8] if rng.random() < 0.45}
+    feats = {fam} if fam != "mix" else {f for f in FAMILIES[1:9] if rng.random() < 0.45}
     if fam == "mix":
         if rng.random() < 0.1:
             feats.add("retock")
@@ -206,6 +215,8 @@ def rand_case(rng, fam, tier):
             feats.add("rerun")
     if "overshoot" in feats:
         c["overs"] = [rng.choice([0, 0, 1, 2, max(1, q // 2), q, q + 1, 2 * q, 3 * q + 1]) for _ in range(3 * n)]
+    if "undershoot" in feats:
+        c["unders"] = {str(i): rng.choice([1, 1, max(1, q // 2), q - 1 or 1, q, 3 * q]) for i in some(2 * n, 1, 8)}
     if "longwork" in feats:
         c["work"] = [rng.choice([0, 0, 0, 1, max(1, q - 1), q, q + 1, 2 * q, 3 * q + 5, 7 * q]) for _ in range(n)]
     elif rng.random() < 0.3:
@@ -348,6 +359,7 @@ def judge(log, i0, t_do, tock, ctx, diag):
     p = 0.0
     lastw = None
     waits = None          # sleeps since the last cycle end: list of (requested, overshoot); None before cycle 0
+    short_in_wait = False  # a sleep of the current wait returned early
     retro_sized = False   # a sleep of the current wait was sized by a reading that itself revealed a backward step
     last_read_retro = False
     nextk = 0
@@ -371,6 +383,12 @@ def judge(log, i0, t_do, tock, ctx, diag):
             ctx.count("sleeps")
             if ev[3] > 0:
                 ctx.count("overshot_sleeps")
+            elif ev[3] < 0:
+                ctx.count("undershot_sleeps")          # returned early in true time: more waiting must follow
+                if ev[3] == -ev[2]:
+                    ctx.count("sleeps_that_took_no_time")
+                if waits is not None:
+                    short_in_wait = True
             if waits is not None:
                 waits.append((ev[2], ev[3]))
                 if 0 < ev[2] < MS:
@@ -394,6 +412,7 @@ def judge(log, i0, t_do, tock, ctx, diag):
             what, k = ev[2]
             if what == "ce":
                 waits = []
+                short_in_wait = False
                 retro_sized = False
                 nextk = k + 1
                 continue
@@ -421,7 +440,9 @@ def judge(log, i0, t_do, tock, ctx, diag):
                 elif waits:
                     ctx.count("lossless_checks")
                     late = p - need
-                    over = waits[-1][1]
+                    over = max(0.0, waits[-1][1])
+                    if short_in_wait:
+                        ctx.count("cycles_waited_through_a_short_sleep")
                     pattern.append("w" if late <= 0 else "o")
                     if late > over:
                         ctx.count("drifted_cycle_starts")
@@ -447,12 +468,12 @@ def run_case(case, ctx):
     clock = FakeClock(overshoots=[u(x) for x in case["overs"]],
                       sleep_steps={k: u(v) for k, v in case["sleep_steps"].items()},
                       read_steps={k: u(v) for k, v in case["read_steps"].items()},
-                      stalls=case["stalls"],
+                      stalls=case["stalls"], undershoots={k: u(v) for k, v in case.get("unders", {}).items()},
                       max_sleeps=200 * (case["n"] + 5) * case["runs"], max_reads=2000 * (case["n"] + 5) * case["runs"])
     n = case["n"]
     work = [u(x) for x in case["work"]]
     cycle_steps = {int(k): u(v) for k, v in case["cycle_steps"].items()}
-    feats = sorted(f for f in ("overs", "sleep_steps", "read_steps", "cycle_steps", "stalls") if case[f]) + \
+    feats = sorted(f for f in ("overs", "unders", "sleep_steps", "read_steps", "cycle_steps", "stalls") if case.get(f)) + \
         (["work"] if any(case["work"]) else []) + (["prestep"] if case["prestep"] else []) + \
         (["retock"] if case["retock"] is not None else []) + (["rerun"] if case["runs"] > 1 else [])
     sig_runs = []
